@@ -1,6 +1,6 @@
 """C07 — Wolfram (NKS) binary rule numbering: correspondence generators and runners."""
 import numpy as np
-from harness.driver import call_impl, cz, cnat, cN, cbool, czlist, copt, cres
+from harness.driver import call_impl, cz, cnat, cN, cbool, czlist, copt, cres, clist
 
 ID = 'C07'
 COQ_IMPORTS = 'From CPL Require Import Model.Base Model.Numbering Corr.C07.\nOpen Scope Z_scope.'
@@ -89,6 +89,39 @@ def generate(rng, tier):
         yield c
 
 
+def _review_cases(rng, tier):
+    """Buckets added after the independent review: the rule given as a Python LIST (not only ndarray);
+    float-dtype neighbourhoods (a float automaton) in every form incl. the powers-of-two vector; class
+    objects called with varying (c, t) and REUSED across calls on different neighbourhoods."""
+    n = 150 if tier == 'quick' else 1500
+    for i in range(n):
+        L = rng.choice([3, 3, 5, 7])
+        nb = [rng.randint(0, 1) for _ in range(L)]
+        R = rng.getrandbits(2 ** L) if rng.random() < 0.8 else rng.randrange(256)
+        rf, pw, cl = rng.choice(_forms())
+        yield {'kind': 'review/list_or_float', 'op': 'binary_rule', 'nb': nb, 'rule': R, 'rule_form': rf,
+               'scheme': rng.choice(['nks', 'default']), 'pows': pw, 'cls': cl,
+               'rule_list': rf == 'array' and rng.random() < 0.5, 'nb_dtype': rng.choice(['int64', 'float64', 'int32', 'uint8', 'bool']),
+               'c': rng.randrange(50), 't': rng.randrange(1, 50)}
+    for i in range(n // 5):
+        L = rng.choice([3, 5, 7])
+        R = rng.getrandbits(2 ** L)
+        yield {'kind': 'review/class_reuse', 'op': 'class_reuse', 'rule': R, 'scheme': rng.choice(['nks', 'default']),
+               'binary': bool(rng.randint(0, 1)), 'pows': bool(rng.randint(0, 1)),
+               'calls': [{'nb': [rng.randint(0, 1) for _ in range(L)], 'c': rng.randrange(50), 't': rng.randrange(1, 50)}
+                         for _ in range(rng.randint(2, 6))]}
+
+
+_generate_seq = generate
+
+
+def generate(rng, tier):
+    for c in _generate_seq(rng, tier):
+        yield c
+    for c in _review_cases(rng, tier):
+        yield c
+
+
 def _scribble(arr):
     try:
         arr[...] = 1 - arr
@@ -115,17 +148,26 @@ def run_impl(c):
             r = call_impl(lambda: int(cpl.NKSRule(c['rule'])(nb, 0, 1)))
         else:
             r = call_impl(lambda: int(cpl.nks_rule(nb, c['rule'])))
+    elif op == 'class_reuse':
+        L = len(c['calls'][0]['nb'])
+        scheme = 'nks' if c['scheme'] == 'nks' else None
+        pows = (2 ** np.arange(L)[::-1]) if c['pows'] else None
+
+        def _reuse():
+            obj = cpl.BinaryRule(c['rule'], scheme, pows) if (c['binary'] or scheme is None) else cpl.NKSRule(c['rule'])
+            return [int(obj(np.array(k['nb']), k['c'], k['t'])) for k in c['calls']]
+        r = call_impl(_reuse)
     else:
-        nb = np.array(c['nb'])
+        nb = np.array(c['nb'], dtype=c.get('nb_dtype', 'int64'))
         L = len(c['nb'])
         rule = c['rule']
         if c['rule_form'] == 'array':
             bits = [int(x) for x in bin(rule)[2:].zfill(2 ** L)]
-            rule = np.array(bits) if L % 2 else bits
+            rule = bits if c.get('rule_list') else np.array(bits)   # both accepted forms: list and ndarray
         scheme = 'nks' if c['scheme'] == 'nks' else None
         pows = (2 ** np.arange(L)[::-1]) if c['pows'] else None
         if c['cls']:
-            r = call_impl(lambda: int(cpl.BinaryRule(rule, scheme, pows)(nb, 0, 1)))
+            r = call_impl(lambda: int(cpl.BinaryRule(rule, scheme, pows)(nb, c.get('c', 0), c.get('t', 1))))
         else:
             r = call_impl(lambda: int(cpl.binary_rule(nb, rule, scheme, pows)))
     return list(r)
@@ -139,6 +181,13 @@ def to_coq(c, obs):
         return '(CIntToBits %s %s %s)' % (cN(c['num']), cnat(c['d']), cres(obs, czlist))
     if op == 'nks':
         return '(CNks %s %s %s %s)' % (cbool(c['cls']), czlist(c['nb']), cN(c['rule']), cres(obs, cz))
+    if op == 'class_reuse':
+        L = len(c['calls'][0]['nb'])
+        pows = copt([2 ** (L - 1 - i) for i in range(L)] if c['pows'] else None, czlist)
+        use_nks_class = (not c['binary']) and c['scheme'] == 'nks'
+        return '(CClassReuse %s %s %s %s %s %s)' % (
+            cbool(use_nks_class), cN(c['rule']), 'SNks' if c['scheme'] == 'nks' else 'SDefault', pows,
+            clist([k['nb'] for k in c['calls']], czlist), cres(obs, czlist))
     L = len(c['nb'])
     if c['rule_form'] == 'array':
         rule = '(RBits %s)' % czlist([int(x) for x in bin(c['rule'])[2:].zfill(2 ** L)])
@@ -182,3 +231,27 @@ def shrink(c):
         yield dict(c, bits=c['bits'][:-1])
     if c['op'] == 'int_to_bits' and c['d'] > 1:
         yield dict(c, d=c['d'] // 2, num=c['num'] % (2 ** (c['d'] // 2)))
+
+
+# ------------------------------------------------------------------ source tie (appended; harness/translate.py)
+# pre(): regenerate coq/gen/GenFuns.v from the Python source of the tree under test and, if it changed, re-prove
+# GenProps/GenFunsEquivC07.v, GenProps/C07Src.v and Properties/C07.v (theorem C07_source_tie) by hand.
+# extra_checks(): report a failed translation / equivalence proof (theorem names, translator or coqc error).
+from harness import translate as _translate
+_prev_pre = globals().get('pre')
+_prev_extra_checks = globals().get('extra_checks')
+TRUSTED = list(globals().get('TRUSTED', [])) + [_translate.TRUSTED_NOTE]
+NOTES = list(globals().get('NOTES', [])) + [
+    'coq/gen/GenFuns.v is regenerated from the Python source at the start of every run; theorem C07_source_tie proves '
+    'the regenerated definitions equal to the hand-written model for all inputs']
+
+
+def pre(ctx):
+    if _prev_pre is not None:
+        _prev_pre(ctx)
+    _translate.pre_hook(ctx, 'C07')
+
+
+def extra_checks(ctx):
+    out = list(_prev_extra_checks(ctx)) if _prev_extra_checks is not None else []
+    return out + _translate.extra_hook(ctx, 'C07')
